@@ -2,11 +2,14 @@
 claim('C04', 'proof',
       'Per spec class (Number int/real, Enum, List, Tuple fixed/variable with symbolic arity, Str): `_validate` raises iff the '
       'statement\'s acceptance predicate is false; `is_compatible` True implies acceptance-set inclusion; `_extend` narrows and '
-      'leaves the base compatible; `apply` result accepted, idempotent, spec unchanged. Obligations are discharged by z3 for all '
+      'leaves the base compatible (Number, `ListKey.extend`, `List._extend` through the real `Field.extend`, `Tuple._extend` in all four fixed/variable '
+      'combinations incl. the one-field-per-position shape invariant); `apply` result accepted, idempotent, spec unchanged, also with the modifiers '
+      'frozen / noneable / default / allow_partial symbolic. Obligations are discharged by z3 for all '
       'bounds/sizes/values; nested element specs enter through an induction hypothesis (uninterpreted acceptance set + law).',
       'Trusted: pyvc engine (cross-checked per path against CPython), builtin axioms, A-INDUCTION for nesting, floats as reals. '
-      'Dict/Object/Union/Callable specs and Schema-level extend/compat are not under contract in this revision.',
-      'contract-based deductive verification (pyvc VC generation from real source + z3/cvc5)', 'DESIGN.md 5/C04')
+      'Dict/Object/Union/Callable/Type/Any specs and Schema-level extend/compat are not under contract: the bounded driver (bounded/c04_value_specs.py: '
+      'spec universe x value pools; apply / default / compatibility / extension / union / frozen laws) stands in for them.',
+      'contract-based deductive verification (pyvc VC generation from real source + z3/cvc5) + bounded stand-in for the remaining spec classes', 'DESIGN.md 5/C04')
 claim('C02', 'proof',
       'pg.List refines Python list per operation on the payload view: `_parse_slice` / `__getitem__` (int, and slices with start/stop symbolic and '
       'step in {None,+-1,+-2,+-3}) return exactly what Python\'s slice semantics prescribe, `append/insert/__setitem__/__delitem__/pop` leave the '
@@ -39,9 +42,11 @@ claim('C15', 'proof',
       'the bounded tier only (all crash points of short runs).',
       'contract-based deductive verification (pyvc loop invariants, relational step contracts) + bounded stand-in', 'DESIGN.md 5/C15')
 claim('C17', 'proof',
-      'For `thread_local_value_scope` (arbitrary key and values), every flags.py manager with its getter, and `coding.permission`: the real generator '
+      'For `thread_local_value_scope` (arbitrary key and values), every flags.py manager with its getter, `coding.permission` and the class-based `pg.timeit` (TimeIt.__enter__/__exit__ for an '
+      'object with arbitrary stale bookkeeping, whether or not end() was called in the block): the real generator '
       'body is executed to its yield, the block is abstracted by the induction hypothesis (well-nested body), and on both the normal and the '
-      'exceptional exit the whole thread-local store equals the store before entering; inside the block the getter returns the argument '
+      'exceptional exit the whole thread-local store equals the store before *entering* (the store is havocked between creating the manager object and entering it, '
+      'so a manager that captures state at creation time fails); inside the block the getter returns the argument '
       '(outermost wins for permission); all writes go to the current thread\'s store (threading.local axiom).',
       'Trusted: engine, the threading.local confinement axiom (pyvc/tls.py), private sentinels are never stored by callers. Other managers '
       '(contextual overrides, view options, detour, dynamic evaluation, timing) are covered by the bounded tier (nested programs, two threads).',
@@ -99,7 +104,8 @@ claim('C01', 'proof',
       'Kernel of the tree invariant on the real code: `_relocate_if_symbolic` (for list, dict and object-attribute containers) returns a leaf untouched, '
       'returns a symbolic node with parent = the container\'s parent-for-children and path = container path + key, adopts the node object itself only if it was '
       'free or already in that slot and otherwise adopts a copy while the original keeps parent and path (one object never in two places); the list write '
-      'primitive, `__setitem__`, `__delitem__` and `pop` detach (sym_setparent(None)) the very child they remove or replace, for lists of any length. '
+      'primitive, `__setitem__`, `__delitem__` and `pop` detach (sym_setparent(None)) the very child they remove or replace, for lists of any length; the dict write '
+      'primitive detaches (parent and path reset) the node stored under a key that is replaced or deleted. '
       'The whole-tree invariant over histories is checked by the bounded tier (well-formedness walk after every step of all short histories).',
       'Trusted: engine; assumed contract of `Symbolic.clone` (fresh parentless copy, see C07) and of `_update_children_paths` (recursive re-addressing); '
       'acyclicity (inserting a node below itself) is not proved and is a bounded-tier case; Dict/Object mutators are bounded-tier only.',
